@@ -192,13 +192,33 @@ def check(pid, tier, replay=None):
         with open(replay) as f:
             rp = json.load(f)["payload"]["behaviour"]
         rb = {rp["family"]: [dict(hist=rp["hist"], msgs=rp["msgs"], sess=rp["sess"], settle=rp["settle"])]}
-    stats, violations = run_pipeline(tier, rb)
-    mine = []
+    extra = None
+    if pid == "C02" and rb is None:
+        # C02 spans session rotation: the channel pipeline runs too (AtMostOnce / Authentic across rekeys and restarts)
+        from . import channel
+        with ThreadPoolExecutor(max_workers=2) as ex:
+            fs = ex.submit(run_pipeline, tier, None)
+            fc = ex.submit(channel.run_pipeline, tier, None)
+            stats, violations = fs.result()
+            cstats, cviol = fc.result()
+        violations = violations + cviol
+        extra = dict(channel=dict(model_checking=cstats["mc"], behaviours=cstats["behaviours"], events=cstats["events"],
+                                  drift_steps=cstats["drift"], settle=cstats["settle"]))
+        stats["events"] += cstats["events"]
+        stats["trace_states"] += cstats["trace_states"]
+        for k, v in cstats["mc"].items():
+            stats["mc"]["channel-" + k] = v
+        for k, v in cstats["behaviours"].items():
+            stats["behaviours"]["channel-" + k] = v
+    else:
+        stats, violations = run_pipeline(tier, rb)
+    mine, seen = [], set()
     for (p, key, what, payload) in violations:
-        if p != pid:
+        if p != pid or key in seen:
             continue
+        seen.add(key)
         mine.append(core.Violation(pid, key, what, core.write_replay(pid, key, payload)))
-    report(pid, tier, stats, mine, t0)
+    report(pid, tier, stats, mine, t0, extra)
     return core.verdict(pid, mine)
 
 
